@@ -959,13 +959,14 @@ class Lattice:
                 raise ValueError('got non-1D array in `mps_inds` ' + str(mps_inds_ax.shape))
             lat_inds_ax = self.mps2lat_idx(mps_inds_ax)
             shape = list(self.shape)
-            max_i = np.max(mps_inds_ax)
-            if max_i >= self.N_sites:
-                shape[0] += (max_i - self.N_sites) * self.N_rings // self.N_sites + 1
-            min_i = np.min(mps_inds_ax)
-            if min_i < 0:
+            # size of the first axis from the `x_0` actually reached (the order need not be monotonic in x_0)
+            max_x0 = np.max(lat_inds_ax[:, 0])
+            if max_x0 >= shape[0]:
+                shape[0] = max_x0 + 1
+            min_x0 = np.min(lat_inds_ax[:, 0])
+            if min_x0 < 0:
                 # we use numpy indexing to simply wrap around negative indices
-                shape[0] += (abs(min_i) - 1) * self.N_rings // self.N_sites + 1
+                shape[0] += -min_x0
             if not include_u_ax:
                 shape = shape[:-1]
                 lat_inds_ax = lat_inds_ax[:, :-1]
